@@ -71,14 +71,21 @@ def trigLenient (m : Mode) (op : Op) (a b : Atom) : Bool :=
 
 def isTemporal (a : Atom) : Bool := a.isDT || a.isDur
 
-/-- F07-untyped: (i) untypedAtomic against xs:decimal goes through `Decimal(str)`, exact and raising
-decimal.InvalidOperation; (ii) untypedAtomic against xs:float is clamped to the binary32 range by
-`Float.make`; (iii) an xs:anyURI left operand compares the raw untyped string (no white-space collapse) -/
+/-- F07-untyped: (i) untypedAtomic against xs:float is clamped to the binary32 range by `Float.make`;
+(ii) an xs:anyURI left operand compares the raw untyped string (no white-space collapse) -/
 def trigUntyped (_op : Op) (a b : Atom) : Bool :=
   match a, b with
-  | .ua _, .dec _ | .dec _, .ua _ => true
   | .ua _, .flt _ | .flt _, .ua _ => true
   | .uri _, .ua t => decide (strip t ≠ t)
+  | _, _ => false
+
+/-- F07-untyped, QName part: an xs:QName *left* operand compares the untyped string with its lexical
+`prefix:local` form instead of casting it; and the 2.0 parsers cast untypedAtomic to QName although
+XPath 2.0 does not allow that cast (XPTY0004) -/
+def trigUntypedQN (m : Mode) (a b : Atom) : Bool :=
+  match a, b with
+  | .qn .., .ua _ => true
+  | .ua _, .qn .. => decide (m ≠ .v31)
   | _, _ => false
 
 /-! ### date/time payloads: validity of the timezone, calendar consistency (not findings) -/
@@ -119,7 +126,9 @@ def singleBool : List Atom → Bool | [.bool _] => true | _ => false
 /-- F07-compat, on the atomized operands -/
 def trigCompat (m : Mode) (op : Op) (l r : List Atom) (lNode rNode : Bool) : Bool :=
   m.compat &&
-  (-- (iii) the single-boolean rule: empty or multi-item other operand, a node in the other operand
+  (-- an integer / decimal operand that is not exactly a double (number() rounds it, the code does not)
+   (l ++ r).any inexactDouble ||
+   -- (iii) the single-boolean rule: empty or multi-item other operand, a node in the other operand
    -- (atomized before its effective boolean value is taken), 1.0 ordering
    (singleBool l && (r.isEmpty || r.length ≥ 2 || rNode || (m = .v1 && op.isOrd))) ||
    (singleBool r && !singleBool l && (l.isEmpty || l.length ≥ 2 || lNode || (m = .v1 && op.isOrd))) ||
@@ -143,7 +152,7 @@ def trigGeneral (m : Mode) (op : Op) (L Rr : List Item) : List String :=
   (if ps.any (fun (a, b) => trigTol false op a b) then ["F07"] else []) ++
   (if pairLevel && ps.any (fun (a, b) => trigPromotion false a b) then ["F07-promotion"] else []) ++
   (if pairLevel && ps.any (fun (a, b) => trigLenient m op a b) then ["F07-lenient"] else []) ++
-  (if pairLevel && ps.any (fun (a, b) => trigUntyped op a b) then ["F07-untyped"] else []) ++
+  (if pairLevel && ps.any (fun (a, b) => trigUntyped op a b || trigUntypedQN m a b) then ["F07-untyped"] else []) ++
   (if trigCompat m op l r (L.any isNode) (Rr.any isNode) then ["F07-compat"] else [])
 
 def castUAStr : Atom → Atom | .ua s => .str s | a => a
